@@ -35,6 +35,7 @@ class Intervals:
         self.memo = {}
         self.lv = {}                           # (uid, cell) -> interval during fixpoint
         self.used_invariants = set()
+        self.nowrap = set()                    # (op, a, b, ty) known not to overflow on this path
 
     # ------------------------------------------------------------ types of symbolic terms
     def type_of(self, t):
@@ -86,6 +87,9 @@ class Intervals:
                 self.refine[a] = meet(self.refine.get(a, FULL), (FULL[0], rb[1] - d))
                 self.refine[b] = meet(self.refine.get(b, FULL), (ra[0] + d, FULL[1]))
             self.memo.clear()
+        elif atom[0] == "overflow":
+            if not pol:
+                self.nowrap.add((atom[1], atom[2], atom[3], atom[4]))
         elif atom[0] == "fits" and pol:
             r = INT_RANGES.get(atom[3])
             if r:
@@ -157,6 +161,31 @@ class Intervals:
             return (lo, max(abs(a[0]), abs(a[1])))
         if k == "ite":
             return join(self.range(t[2]), self.range(t[3]))
+        if k in ("isatsub", "isatadd", "iwrapadd", "iwrapsub", "iwrapmul"):
+            a, b = self.range(t[1]), self.range(t[2])
+            tr = self.ty_range(t[3])
+            if k == "isatsub":
+                r = (a[0] - b[1], a[1] - b[0])
+            elif k == "isatadd":
+                r = (a[0] + b[0], a[1] + b[1])
+            elif k == "iwrapadd":
+                r = (a[0] + b[0], a[1] + b[1])
+            elif k == "iwrapsub":
+                r = (a[0] - b[1], a[1] - b[0])
+            else:
+                c = [a[0] * b[0], a[0] * b[1], a[1] * b[0], a[1] * b[1]]
+                r = (min(c), max(c))
+            if tr[0] <= r[0] and r[1] <= tr[1]:
+                return r
+            if k.startswith("isat"):
+                return (max(r[0], tr[0]), min(r[1], tr[1])) if r[0] <= tr[1] and r[1] >= tr[0] else tr
+            return tr
+        if k == "imin":
+            a, b = self.range(t[1]), self.range(t[2])
+            return (min(a[0], b[0]), min(a[1], b[1]))
+        if k == "imax":
+            a, b = self.range(t[1]), self.range(t[2])
+            return (max(a[0], b[0]), max(a[1], b[1]))
         if k == "lv":
             r = self.lv.get((t[1], t[2]))
             if r is not None:
@@ -172,10 +201,6 @@ class Intervals:
             return self.vec_elem_range(t[1])
         if k == "len":
             return (0, (1 << 63) - 1)
-        ty = self.type_of(t)
-        if ty is not None:
-            if ty[0] == "prim":
-                return self.ty_range(ty[1])
         # newtype invariants: field 0 of an invariant-carrying ADT
         if k == "field":
             bt = self.type_of(t[1])
@@ -185,6 +210,10 @@ class Intervals:
                 if bt[0] == "adt" and bt[1] in self.invariants:
                     self.used_invariants.add(bt[1])
                     return self.invariants[bt[1]]
+        ty = self.type_of(t)
+        if ty is not None:
+            if ty[0] == "prim":
+                return self.ty_range(ty[1])
         return FULL
 
     def clip(self, r, ts):
